@@ -713,7 +713,7 @@ func (p *Parser) OrCondition() (interface{}, error) {
 	}
 
 	for p.match(OR) {
-		ac := SearchCondition{LHS: ret.(Predicate)}
+		ac := SearchCondition{LHS: ret}
 		ac.RHS, err = p.OrCondition()
 		if err != nil {
 			return nil, err
@@ -733,7 +733,11 @@ func (p *Parser) AndCondition() (interface{}, error) {
 	}
 
 	for p.match(AND) {
-		ac := BooleanTerm{LHS: ret.(Predicate)}
+		lhs, ok := ret.(Predicate)
+		if !ok {
+			return nil, syntaxErr(p.Prev())
+		}
+		ac := BooleanTerm{LHS: lhs}
 		ac.RHS, err = p.AndCondition()
 		if err != nil {
 			return nil, err
@@ -1119,5 +1123,12 @@ func (p *Parser) requireInt() (int64, error) {
 		return 0, err
 	}
 	val, err := p.Prev().Val()
-	return val.(int64), err
+	if err != nil {
+		return 0, err
+	}
+	intVal, ok := val.(int64)
+	if !ok {
+		return 0, syntaxErr(p.Prev())
+	}
+	return intVal, nil
 }
